@@ -463,6 +463,28 @@ func checkHeapAdapter(c *Ctx, p *core.Prog) {
 			why = "setIndex is called without the nil guard"
 			break
 		}
+		// ... and under the nil guard only: every pushed element is told its index, whatever the size of the heap (the element
+		// need not move when it is sifted up, and then nobody else tells it)
+		for d := range core.NewPostDom(push).TransitiveControlDeps()[sc.at.Block()] {
+			ifi, isIf := d.Instrs[len(d.Instrs)-1].(*ssa.If)
+			if !isIf {
+				continue
+			}
+			nilTest := false
+			if bo, isBo := ifi.Cond.(*ssa.BinOp); isBo && (bo.Op == token.NEQ || bo.Op == token.EQL) {
+				for _, o := range []ssa.Value{bo.X, bo.Y} {
+					if cst, isC := o.(*ssa.Const); isC && cst.IsNil() {
+						nilTest = true
+					}
+				}
+			}
+			if !nilTest {
+				okPush, why = false, "whether the new element is told its index also depends on a condition other than the nil guard of the callback ("+p.Pos(ifi.Cond.Pos())+"): an element that does not move when it is sifted up never learns its index, and Fix/Remove through that index hit another element"
+			}
+		}
+		if !okPush {
+			break
+		}
 		// arg0 = x (param), arg1 = len(h.a) before the append
 		if sc.val != ssa.Value(push.Params[1]) {
 			okPush, why = false, "the value reported is not the pushed element"
